@@ -50,6 +50,7 @@ KIND = {"/": "g", "/g": "g", "/g/d": "d", "/g/h": "g", "/g/h/e": "d", "/top": "d
 CHILDREN = {"/": ["g", "top"], "/g": ["d", "h"], "/g/h": ["e"]}
 META_AT = {"/", "/g", "/g/d", "/g/h/e"}
 ATTR_AT = {"/g": "ga", "/g/d": "da", "/top": "ta"}
+ATTR_VAL = {"ga": 710001, "da": 710002, "ta": 710003}  # recognisable attribute values
 SHAPE = {"/g/d": [3], "/g/h/e": [], "/top": []}
 FLAGSETS = ["-", "r", "l", "s", "rl", "rs", "ls", "rls"]
 FLAGNAME = {"r": "read_only", "l": "local_only", "s": "skel_only"}
@@ -101,6 +102,8 @@ def steps_at(path, full):
             out.append((["c", prim, rel], join(path, rel)))
     for rel in pick(deep + [d for d in desc if "/" not in d], 1):
         out.append((["c", "visititems", rel], join(path, rel)))
+    for rel in pick(deep[::-1] + [d for d in desc if "/" not in d], 1):
+        out.append((["c", "visit", rel], join(path, rel)))  # names from visit(), then lookup
     q = [d for d in desc if join(path, d) in META_AT]
     for rel in pick(q[::-1], 1):
         out.append((["c", "query", rel], join(path, rel)))
@@ -119,11 +122,16 @@ def steps_at(path, full):
     return out
 
 
+PROBE = [["p"]] * 3  # further `.parent` calls after the one that is expected to be refused
+
+
 def enum_chains(start, depth, full, flags="-"):
     """all chains of length 1..depth (explicit lists of steps) with the expected final path.
     The generator keeps a rough expectation of where a step leads (node, local_only flag,
     remembered parents) only to propose applicable steps; what really happens is decided by the
-    implementation and by the model."""
+    implementation and by the model. Where the generator expects `.parent` to be refused (local
+    root reached) the chain goes on with more `.parent` calls: if the implementation does not
+    refuse there, the climb is followed up to the top."""
     res = []
 
     def rec(path, loc, lps, chain, d):
@@ -137,7 +145,7 @@ def enum_chains(start, depth, full, flags="-"):
                 if loc:
                     if not lps:
                         chain.append(st)
-                        res.append((list(chain), nxt))  # expected to be refused
+                        res.append((list(chain) + PROBE, nxt))  # expected to be refused
                         chain.pop()
                         continue
                     nxt, lps2 = lps[0], lps[1:]
@@ -165,7 +173,8 @@ GROUP_OPS = ["__setitem__", "__delitem__", "create_group", "require_group", "cre
 DATASET_OPS = ["dataset.__setitem__", "dataset.__getitem__"]
 NODE_OPS = ["attrs.__setitem__", "attrs.__delitem__", "attrs.__getitem__", "am:get", "am:values", "am:items", "am:keys",
             "meta.__setitem__", "meta.__delitem__", "meta.get", "meta.__getitem__", "meta.values", "meta.items", "file"]
-H5_ATTR_OPS = ["am:pop", "am:popitem", "am:clear", "am:update", "am:setdefault", "am:create", "am:modify"]
+H5_ATTR_OPS = ["am:pop", "am:popitem", "am:clear", "am:update", "am:setdefault", "am:create", "am:modify", "am:get_id"]
+AM_VALUE = {"am:pop", "am:popitem", "am:setdefault"}  # mutating methods that also hand out a value
 MUTATING = {"__setitem__", "__delitem__", "create_group", "require_group", "create_dataset", "require_dataset", "move", "copy",
             "dataset.__setitem__", "attrs.__setitem__", "attrs.__delitem__", "meta.__setitem__", "meta.__delitem__",
             "am:pop", "am:popitem", "am:clear", "am:update", "am:setdefault", "am:create", "am:modify"}
@@ -214,9 +223,8 @@ class Fixture:
         mc["g/d"] = np.array([1, 2, 3], dtype="int64")
         mc["g/h/e"] = 5
         mc["top"] = 7
-        mc["g"].attrs["ga"] = 1
-        mc["g/d"].attrs["da"] = 2
-        mc["top"].attrs["ta"] = 3
+        for p, k in sorted(ATTR_AT.items()):
+            mc[p].attrs[k] = ATTR_VAL[k]
         m = _bib()
         for p in sorted(META_AT):
             mc[p].meta["core.bib"] = m["bib"]
@@ -299,6 +307,10 @@ def do_step(n, st):
         found = {}
         n.visititems(lambda name, node: found.__setitem__(name, node))
         return found[arg]
+    if prim == "visit":
+        names = []
+        n.visit(names.append)
+        return n[[x for x in names if x == arg][0]]
     if prim == "query":
         want = join(n.name, arg)
         return [x for x in n.metador.query("core.bib") if x.name == want][0]
@@ -372,6 +384,9 @@ def do_op(n, op, drv):
         n.attrs.create("zz_c", 1)
     elif op == "am:modify":
         n.attrs.modify(ak, 5)
+    elif op == "am:get_id":
+        n.attrs.get_id(ak)
+        return None
     elif op == "meta.__setitem__":
         n.meta["core.dir"] = m["dir"]
     elif op == "meta.__delitem__":
@@ -400,6 +415,70 @@ def _nonempty(v):
         return True
 
 
+def has_attr_value(v, depth=0):
+    """does v contain (part of) one of the attribute values of the fixture?"""
+    if v is None or isinstance(v, (str, bytes)) or depth > 4:
+        return False
+    try:
+        if any(bool(v == x) for x in ATTR_VAL.values()):
+            return True
+    except Exception:
+        pass
+    if hasattr(v, "__iter__"):
+        try:
+            it = list(v.values()) if hasattr(v, "values") and hasattr(v, "keys") else list(v)
+        except Exception:
+            return False
+        return any(has_attr_value(x, depth + 1) for x in it[:50])
+    return False
+
+
+AM_ARGS = [("key",), ("key", 99), (), ({"zz_u": 1},), ("zz_n", 1), ("key", 5)]
+
+
+def raw_attrs(n):
+    a = n.__wrapped__.attrs
+    return sorted((k, repr(a[k])) for k in a.keys())
+
+
+def am_sweep(n, fl, ctxd, oracle, tags):
+    """Every public method the underlying attribute manager offers (dir()), with several argument
+    shapes, through `n.attrs` of a node that is read_only and/or skel_only: a call that returns
+    (part of) an attribute value on a skel_only node, or that changes the attributes of a
+    read_only node, violates the property; anything else (refused, not applicable, harmless) is
+    fine. Returns True when the raw attributes were changed (fixture has to be rebuilt)."""
+    from metador_core.container.wrappers import UnsupportedOperationError
+    ak = ATTR_AT.get(n.name, "ga")
+    names = sorted(x for x in dir(n.__wrapped__.attrs) if not x.startswith("_"))
+    changed = False
+    for m in names:
+        for args in AM_ARGS:
+            args = tuple(ak if a == "key" else a for a in args)
+            before = raw_attrs(n)
+            try:
+                v = getattr(n.attrs, m)(*args)
+                got = has_attr_value(v)
+                res = "passed"
+            except UnsupportedOperationError:
+                got, res = False, "refused"
+            except Exception:
+                got, res = False, "n/a"
+            tags.add("am-sweep:%s:%s" % (m, res))
+            if got and "s" in fl:
+                oracle.append(dict(ctxd, kind="skel-read", op="am:" + m, args=repr(args), node=n.name, acl=fl))
+            if raw_attrs(n) != before:
+                changed = True
+                if "r" in fl:
+                    oracle.append(dict(ctxd, kind="ro-mutation-accepted", op="am:" + m, args=repr(args), node=n.name, acl=fl))
+                # put the attributes back so that the next call sees them again
+                a = n.__wrapped__.attrs
+                for k in list(a.keys()):
+                    del a[k]
+                if n.name in ATTR_AT:
+                    a[ATTR_AT[n.name]] = ATTR_VAL[ATTR_AT[n.name]]
+    return changed
+
+
 def below(name, root):
     return name == root or root == "/" or name.startswith(root + "/")
 
@@ -413,6 +492,7 @@ def impl(case):
     out = ["ok"] * (len(KIND) - 1) + ["ok"]
     oracle, tags = [], set()
     seen = set()
+    swept = set()
     try:
         fx = Fixture(drv, tmp)
         for chain, expect_kind in case["chains"]:
@@ -473,16 +553,22 @@ def impl(case):
             letters = []
             dirty = False
             for op in ops_for(kind, drv):
-                if op in MUTATING and "r" not in prev:
+                # mutating operations are only tried where they have to be refused: on read_only
+                # nodes, and the attribute-manager methods on skel_only nodes as well (there the
+                # wrapper admits nothing but `keys`)
+                if op in MUTATING and "r" not in prev and not (op.startswith("am:") and "s" in prev):
                     letters.append("p")
                     continue
                 try:
                     v = do_op(n, op, drv)
                     res = "P"
-                    if op in MUTATING:  # reached only on a read_only node
-                        oracle.append(dict(kind="ro-mutation-accepted", op=op, chain=chain, start=case["start"], flags=f0, drv=drv, node=n.name, acl=prev))
+                    if op in MUTATING:
+                        if "r" in prev:
+                            oracle.append(dict(kind="ro-mutation-accepted", op=op, chain=chain, start=case["start"], flags=f0, drv=drv, node=n.name, acl=prev))
                         dirty = True
                     if op in READING and "s" in prev and _nonempty(v):
+                        oracle.append(dict(kind="skel-read", op=op, chain=chain, start=case["start"], flags=f0, drv=drv, node=n.name, acl=prev))
+                    if op in AM_VALUE and "s" in prev and has_attr_value(v):
                         oracle.append(dict(kind="skel-read", op=op, chain=chain, start=case["start"], flags=f0, drv=drv, node=n.name, acl=prev))
                     if op in UPWARD and "l" in prev:
                         oracle.append(dict(kind="local-escape", op=op, chain=chain, start=case["start"], flags=f0, drv=drv, node=n.name, acl=prev))
@@ -492,6 +578,10 @@ def impl(case):
                 letters.append(res)
             out.append("".join(letters))
             tags.add("ops:" + kind + ":" + prev)
+            if ("r" in prev or "s" in prev) and (n.name, prev) not in swept:
+                swept.add((n.name, prev))
+                if am_sweep(n, prev, dict(chain=chain, start=case["start"], flags=f0, drv=drv), oracle, tags):
+                    dirty = True
             if "r" in prev:
                 if fx.dump() != fx.base:
                     if not dirty:
@@ -514,7 +604,8 @@ def step_tok(st):
         return "p"
     if st[0] == "r":
         return "r:" + st[1]
-    return "%s:%s:%s" % (st[0], {"iter": "iter"}.get(st[1], st[1]), hx(st[2]))
+    # `visit` hands out names only; the node comes from the lookup that follows
+    return "%s:%s:%s" % (st[0], {"visit": "getitem"}.get(st[1], st[1]), hx(st[2]))
 
 
 def lines(case):
@@ -558,6 +649,7 @@ def rand_chains(rng, start, flags, n, lo, hi):
             if st[0] == "p":
                 if loc:
                     if not lps:
+                        chain += PROBE[:rng.randrange(0, len(PROBE) + 1)]
                         break
                     nxt, lps = lps[0], lps[1:]
             elif st[0] == "a":
@@ -574,8 +666,38 @@ def rand_chains(rng, start, flags, n, lo, hi):
     return out
 
 
+def climb_chains(start, flags, two):
+    """local root (the start node when it is local_only, otherwise made so by a `restrict` step),
+    one or two navigation steps downwards with EVERY argument of every primitive (multi-segment
+    paths, visitor arguments, query results included), then `.parent` as often as there are
+    nodes between the node reached and the top of the container, plus two."""
+    out = []
+    pre = [] if "l" in flags else [["r", "l"]]
+    if KIND[start] != "g":
+        return out
+    for s1, p1 in steps_at(start, True):
+        if s1[0] != "c" or s1[2] == "":
+            continue
+        up = [["p"]] * (p1.count("/") + 2)
+        out.append([pre + [s1] + up, "g"])
+        if not two or KIND[p1] != "g":
+            continue
+        for s2, p2 in steps_at(p1, True):
+            if s2[0] == "c" and s2[2] != "":
+                out.append([pre + [s1, s2] + [["p"]] * (p2.count("/") + 2), "g"])
+    return out
+
+
 def gen_cases(ctx):
     cases = []
+    for drv, two in (("h5", True), ("ih5", not ctx.quick)):
+        for start in STARTS:
+            for flags in FLAGSETS:
+                ch = climb_chains(start, flags, two)
+                per = 500 if drv == "h5" else 120
+                for i in range(0, len(ch), per):
+                    cases.append(dict(kind="chains", drv=drv, start=start, flags=flags, chains=ch[i:i + per], depth=9, full=True, group="climb"))
+        ctx.exhaustive_spaces.append("driver %s: every local root (4 start nodes x 8 flag sets, local_only set by the start flags or by a restrict step) x every %s downward navigation step(s) with every argument (multi-segment paths, visitor arguments, query results) x `.parent` repeated past the top of the container" % (drv, "one or two" if two else "single"))
     for drv, n in (("h5", 60 if ctx.quick else 1500), ("ih5", 6 if ctx.quick else 150)):
         for start in STARTS:
             for flags in FLAGSETS:
@@ -660,13 +782,16 @@ def shrink(ctx, case, detail):
 
 def search(ctx):
     from .. import pool
-    sub = core.Ctx(ID, "thorough", ctx.seed)
-    cases = [c for c in gen_cases(sub) if c["drv"] == "h5"]
-    res = pool.run(MOD, "impl", cases, timeout=300)
-    ctx.search_log.append("thorough enumeration on h5: %d cases, oracle only" % len(cases))
-    for c, r in zip(cases, res):
-        if "ok" in r and r["ok"]["oracle"]:
-            return shrink(ctx, c, r["ok"]["oracle"][0])
+    # 1. other seeds of the quick generators on both drivers, 2. the thorough enumeration on h5
+    rounds = [("quick", ctx.seed + 1 + i, None) for i in range(2)] + [("thorough", ctx.seed, "h5")]
+    for tier, seed, only in rounds:
+        sub = core.Ctx(ID, tier, seed)
+        cases = [c for c in gen_cases(sub) if only is None or c["drv"] == only]
+        res = pool.run(MOD, "impl", cases, timeout=300)
+        ctx.search_log.append("%s generators, seed %d%s: %d cases, oracle only" % (tier, seed, " on " + only if only else "", len(cases)))
+        for c, r in zip(cases, res):
+            if "ok" in r and r["ok"]["oracle"]:
+                return shrink(ctx, c, r["ok"]["oracle"][0])
     return None
 
 
